@@ -448,6 +448,8 @@ pub fn node_addr(i: usize) -> SocketAddr {
 }
 
 pub async fn make_node(world: &World, i: usize, spec: &NodeSpec) -> SimNode {
+    // instrumented lock-section boundaries yield once: other runnable tasks interleave there
+    verif_hooks::set_sched_yields(1);
     let addr = node_addr(i);
     let tid_hex = hex::encode(spec.tid);
     let sock = world.add_endpoint(spec.tid, addr, false);
@@ -487,6 +489,9 @@ pub async fn connect(nodes: &[SimNode], a: usize, b: usize) -> bool {
 #[derive(Clone, Debug)]
 pub enum Action {
     Deliver(Frame),
+    /// deliver every currently deliverable frame at once (their handlers then run interleaved at the
+    /// instrumented scheduling points)
+    DeliverBurst(Vec<Frame>),
     Drop(Frame),
     /// let virtual time pass (fires due timers)
     Advance,
@@ -513,11 +518,12 @@ pub struct Chooser {
     pub allow_drop: bool,
     pub allow_reorder: bool,
     pub allow_early_time: bool,
+    pub allow_burst: bool,
 }
 
 impl Chooser {
     pub fn new(prefix: &[usize]) -> Chooser {
-        Chooser { prefix: prefix.to_vec(), points: Vec::new(), allow_drop: true, allow_reorder: true, allow_early_time: true }
+        Chooser { prefix: prefix.to_vec(), points: Vec::new(), allow_drop: true, allow_reorder: true, allow_early_time: true, allow_burst: false }
     }
     pub fn next(&mut self, world: &World, work_outstanding: bool, extras: &[String]) -> Action {
         let frames = world.deliverable();
@@ -542,6 +548,9 @@ impl Chooser {
         }
         if self.allow_early_time && !frames.is_empty() {
             menu.push((Action::Advance, "advance time early".into()));
+        }
+        if self.allow_burst && frames.len() >= 2 {
+            menu.push((Action::DeliverBurst(frames.clone()), format!("deliver {} frames at once", frames.len())));
         }
         for (k, e) in extras.iter().enumerate() {
             menu.push((Action::Extra(k), e.clone()));
@@ -764,6 +773,13 @@ pub async fn drive(world: &World, ch: &mut Chooser, finished: &dyn Fn() -> bool,
             Action::Deliver(f) => {
                 if let Some(fr) = world.deliver(f.seq) {
                     on_deliver(&fr);
+                }
+            }
+            Action::DeliverBurst(fs) => {
+                for f in fs {
+                    if let Some(fr) = world.deliver(f.seq) {
+                        on_deliver(&fr);
+                    }
                 }
             }
             Action::Drop(f) => world.drop_frame(f.seq),
